@@ -171,6 +171,8 @@ func C14(c *Ctx) {
 	if g := c.G(); g != nil {
 		r.Rule("C14-e", "a clone made by -optimize-grammar keeps every field of the node (C09-h under this property): an inlined throw keeps its label, an inlined recovery operator its label list")
 		cloneKeepsFields(c, g, "C14-e")
+		r.Rule("C14-f", "-optimize-grammar never replaces a recovery operator or a throw by something else (C09-i under this property): optimizeRule returns the expression itself, a clone of a referenced rule, or the single element of a choice / sequence - a recovery operator stays in force around its guarded expression, a throw stays a throw that enclosing handlers can catch")
+		optimizerUnwraps(c, g, "C14-f")
 	}
 }
 
